@@ -25,7 +25,10 @@ func (t *traceWriter) Write(p []byte) (int, error) {
 }
 
 // boundaryValues are the targeted rewrites of length/count fields.
-var boundaryValues = []uint64{0, 1, 0xfc, 0xfd, 0xffff, 0x10000, 0xffffffff, 1 << 63, ^uint64(0)}
+// (1000 ... 50001: counts at and just past the protocol's own per-message
+// limits - a decoder that refuses counts above its limit may still size an
+// allocation by a count just inside it)
+var boundaryValues = []uint64{0, 1, 0xfc, 0xfd, 0xffff, 0x10000, 0xffffffff, 1 << 63, ^uint64(0), 1000, 10000, 10001, 50000, 50001}
 
 func varintBytes(v uint64) []byte {
 	switch {
